@@ -1,6 +1,574 @@
 //! Monitors of the simulator properties C14-C19 over the returned trace.
-use crate::sim::{SimCase, SimRun};
+//! They are search tools: given a case they decide whether the REAL simulator
+//! violates the property on it (the theorems and the model tie do the
+//! deciding on the unchanged tree). C16-C18 recover the actions the simulator
+//! acted on by replaying the trace through fresh frameworks seeded like the
+//! simulator's.
+use crate::sim::{run_sim, OutEv, SimCase};
+use maybenot::{Framework, Machine, Timer, TriggerAction};
+use rand_core::SeedableRng;
+use rand_xoshiro::Xoshiro256StarStar;
+use std::collections::BTreeMap;
+use std::time::{Duration, Instant};
 
-pub fn monitor(_prop: &str, _c: &SimCase, _run: &SimRun) -> Option<String> {
-    None
+#[derive(Clone)]
+pub struct Finding {
+    /// Some(id) when the failing input belongs to a recorded known-finding class
+    pub known: Option<&'static str>,
+    pub msg: String,
+}
+
+fn viol(msg: String) -> Finding {
+    Finding { known: None, msg }
+}
+
+const K_NORMAL_RECV: u64 = 0;
+const K_TUNNEL_RECV: u64 = 2;
+const K_NORMAL_SENT: u64 = 3;
+const K_PADDING_SENT: u64 = 4;
+const K_TUNNEL_SENT: u64 = 5;
+const K_BLOCKING_BEGIN: u64 = 6;
+const K_BLOCKING_END: u64 = 7;
+const K_TIMER_BEGIN: u64 = 8;
+const K_TIMER_END: u64 = 9;
+
+fn unfiltered(c: &SimCase) -> SimCase {
+    SimCase { only_client: false, only_network: false, ..c.clone() }
+}
+
+fn is_activity(e: &OutEv) -> bool {
+    e.kind == K_TUNNEL_SENT || e.kind == K_TUNNEL_RECV
+}
+
+/// actions returned for every event of an unfiltered trace, recovered by
+/// replaying it per side through fresh frameworks (same seeds as SimState::new)
+pub fn replay(c: &SimCase, tr: &[OutEv]) -> Result<Vec<Vec<TriggerAction>>, String> {
+    let base = Instant::now() + Duration::from_secs(7200);
+    let at = |rel: i128| if rel >= 0 { base + Duration::from_nanos(rel as u64) } else { base - Duration::from_nanos((-rel) as u64) };
+    let t0 = c.trace.iter().map(|(t, cl)| if *cl { *t as i128 } else { *t as i128 - c.delay_ns as i128 }).min().unwrap();
+    let mk = |ms: &Vec<Machine>, p: f64, b: f64, seed: u64| Framework::new(ms.clone(), p, b, at(t0), Xoshiro256StarStar::seed_from_u64(seed)).map_err(|e| format!("{}", e));
+    let mut fc = mk(&c.mc, c.fr[0], c.fr[1], c.seed)?;
+    let mut fs = mk(&c.ms, c.fr[2], c.fr[3], c.seed.wrapping_add(1))?;
+    let mut out = Vec::with_capacity(tr.len());
+    for e in tr {
+        let f = if e.client { &mut fc } else { &mut fs };
+        let acts: Vec<TriggerAction> = f.trigger_events(&[e.ev.clone()], at(e.t)).cloned().collect();
+        out.push(acts);
+    }
+    Ok(out)
+}
+
+fn dns(d: &Duration) -> i128 {
+    d.as_nanos() as i128
+}
+
+#[derive(Default, Clone)]
+struct SideSpec {
+    /// action timer per machine: (action, due, issued)
+    slot: BTreeMap<usize, (TriggerAction, i128)>,
+    /// actions overwritten or cancelled at the very instant they were due: they
+    /// may already have fired inside the simulator
+    slot_tie: Vec<(usize, TriggerAction, i128)>,
+    /// internal timer expiry per machine
+    timer: BTreeMap<usize, i128>,
+    timer_tie: Vec<(usize, i128)>,
+    /// UpdateTimer actions of the current instant not yet answered by a TimerBegin: (machine, time, required)
+    ut: Vec<(usize, i128, bool)>,
+    /// blocking
+    active: bool,
+    until: i128,
+    bypassable: bool,
+    /// the current blocking involves a zero-duration action (known finding F8)
+    zero_dur: bool,
+}
+
+#[derive(Clone)]
+pub struct Checks {
+    pub c16: Vec<Finding>,
+    pub c17: Vec<Finding>,
+    pub c18: Vec<Finding>,
+}
+
+/// The trace checked against the replayed actions. Where an action was
+/// overwritten or cancelled at the very instant it was due, the trace does not
+/// say whether it had fired just before: every resolution is explored and the
+/// trace is accepted when one of them is consistent (the findings of the best
+/// resolution are returned). `which` selects the property judged.
+pub fn check_actions(c: &SimCase, tr: &[OutEv], acts: &[Vec<TriggerAction>], which: &str) -> Checks {
+    let pick = |ch: &Checks| -> usize {
+        let v = match which {
+            "C16" => &ch.c16,
+            "C17" => &ch.c17,
+            _ => &ch.c18,
+        };
+        v.iter().filter(|f| f.known.is_none()).count() * 1000 + v.len()
+    };
+    let start = (0usize, [SideSpec::default(), SideSpec::default()], Checks { c16: vec![], c17: vec![], c18: vec![] }, None::<usize>);
+    // backtracking: a resolution is abandoned at its first finding outside the known classes
+    let mut stack = vec![start.clone()];
+    let mut explored = 0usize;
+    while let Some((i0, sides, ch, forced)) = stack.pop() {
+        explored += 1;
+        if explored > 3000 {
+            break;
+        }
+        let (done, aborted) = run_from(c, tr, acts, i0, sides, ch, forced, &mut stack, Some(which));
+        if !aborted && pick(&done) < 1000 {
+            return done;
+        }
+    }
+    // no consistent resolution: report the findings of the default one
+    let mut scratch = vec![];
+    run_from(c, tr, acts, start.0, start.1, start.2, start.3, &mut scratch, None).0
+}
+
+#[allow(clippy::too_many_arguments)]
+fn run_from(
+    c: &SimCase,
+    tr: &[OutEv],
+    acts: &[Vec<TriggerAction>],
+    i0: usize,
+    mut sides: [SideSpec; 2],
+    mut ch: Checks,
+    mut forced: Option<usize>,
+    stack: &mut Vec<(usize, [SideSpec; 2], Checks, Option<usize>)>,
+    abort_on: Option<&str>,
+) -> (Checks, bool) {
+    let nm = [c.mc.len(), c.ms.len()];
+    for (i, e) in tr.iter().enumerate().skip(i0) {
+        if let Some(w) = abort_on {
+            let v = match w {
+                "C16" => &ch.c16,
+                "C17" => &ch.c17,
+                _ => &ch.c18,
+            };
+            if v.iter().any(|f| f.known.is_none()) {
+                return (ch, true);
+            }
+        }
+        let si = if e.client { 0 } else { 1 };
+        let sname = if e.client { "client" } else { "server" };
+        let snapshot = if matches!(e.kind, K_PADDING_SENT | K_BLOCKING_BEGIN) && forced.is_none() { Some((sides.clone(), ch.clone())) } else { None };
+        let mut alt: Vec<usize> = vec![];
+        // simulated time is now e.t: nothing that was due strictly earlier may still be pending
+        for (k, sd) in sides.iter_mut().enumerate() {
+            let kn = if k == 0 { "client" } else { "server" };
+            let late: Vec<usize> = sd.slot.iter().filter(|(_, (_, due))| *due < e.t).map(|(m, _)| *m).collect();
+            for m in late {
+                let (a, due) = sd.slot.remove(&m).unwrap();
+                ch.c17.push(viol(format!("{} machine {} action {:?} due at {} did not fire before simulated time reached {} (event #{})", kn, m, a, due, e.t, i)));
+            }
+            let late: Vec<usize> = sd.timer.iter().filter(|(_, exp)| **exp < e.t).map(|(m, _)| *m).collect();
+            for m in late {
+                let exp = sd.timer.remove(&m).unwrap();
+                ch.c18.push(viol(format!("{} machine {} internal timer expiring at {} got no TimerEnd before simulated time reached {} (event #{})", kn, m, exp, e.t, i)));
+            }
+            let mut keep = vec![];
+            for (m, t, req) in sd.ut.drain(..) {
+                if t < e.t {
+                    if req {
+                        ch.c18.push(viol(format!("{} machine {} UpdateTimer at {} set the timer but no TimerBegin was reported at that instant (event #{})", kn, m, t, i)));
+                    }
+                } else {
+                    keep.push((m, t, req));
+                }
+            }
+            sd.ut = keep;
+            sd.slot_tie.retain(|x| x.2 >= e.t);
+            sd.timer_tie.retain(|x| x.1 >= e.t);
+            if sd.active && sd.until < e.t {
+                let f = format!("{} blocking expiring at {} got no BlockingEnd before simulated time reached {} (event #{})", kn, sd.until, e.t, i);
+                ch.c16.push(if sd.zero_dur { Finding { known: Some("F8"), msg: f } } else { viol(f) });
+                sd.active = false;
+                sd.zero_dur = false;
+            }
+        }
+        let sd = &mut sides[si];
+        match e.kind {
+            K_PADDING_SENT | K_BLOCKING_BEGIN => {
+                let m = e.machine as usize;
+                let want_pad = e.kind == K_PADDING_SENT;
+                let mut fired: Option<TriggerAction> = None;
+                let matches = |a: &TriggerAction, due: i128| {
+                    due == e.t
+                        && match a {
+                            TriggerAction::SendPadding { .. } => want_pad,
+                            TriggerAction::BlockOutgoing { .. } => !want_pad,
+                            _ => false,
+                        }
+                };
+                // candidates: the pending action, and actions overwritten or cancelled at the very
+                // instant they were due (they may have fired inside the simulator just before)
+                let mut cands: Vec<Option<usize>> = sd.slot_tie.iter().enumerate().filter(|(_, x)| x.0 == m && matches(&x.1, x.2)).map(|(p, _)| Some(p)).collect();
+                if sd.slot.get(&m).map_or(false, |(a, due)| matches(a, *due)) {
+                    cands.insert(0, None);
+                }
+                let choice = match forced.take() {
+                    Some(k) => k,
+                    None => {
+                        for k in 1..cands.len() {
+                            alt.push(k);
+                        }
+                        0
+                    }
+                };
+                if let Some(cd) = cands.get(choice) {
+                    fired = match cd {
+                        None => sd.slot.remove(&m).map(|x| x.0),
+                        Some(p) => Some(sd.slot_tie.remove(*p).1),
+                    };
+                }
+                match &fired {
+                    None => ch.c17.push(viol(format!(
+                        "{} {} for machine {} at {} (event #{}) is not the completion of the machine's pending action (pending: {:?})",
+                        sname,
+                        if want_pad { "PaddingSent" } else { "BlockingBegin" },
+                        m,
+                        e.t,
+                        i,
+                        sd.slot.get(&m)
+                    ))),
+                    Some(TriggerAction::SendPadding { bypass, replace, .. }) => {
+                        if (e.bypass, e.replace) != (*bypass, *replace) {
+                            ch.c17.push(viol(format!("{} PaddingSent of machine {} at {} carries flags bypass={} replace={} but the action said bypass={} replace={}", sname, m, e.t, e.bypass, e.replace, bypass, replace)));
+                        }
+                    }
+                    Some(TriggerAction::BlockOutgoing { duration, bypass, replace, .. }) => {
+                        let new = e.t + dns(duration);
+                        let zero = dns(duration) == 0;
+                        if !sd.active {
+                            sd.active = true;
+                            sd.until = new;
+                            sd.bypassable = *bypass;
+                            sd.zero_dur = zero;
+                        } else if *replace {
+                            sd.until = new;
+                            sd.bypassable = *bypass;
+                            sd.zero_dur = sd.zero_dur || zero;
+                        } else if new > sd.until {
+                            sd.until = new;
+                            sd.bypassable = sd.bypassable && *bypass;
+                        }
+                    }
+                    _ => {}
+                }
+            }
+            K_BLOCKING_END => {
+                // F8: a zero-duration BlockOutgoing due at this instant (its BlockingBegin is reported after the end)
+                let zero_block = |a: &TriggerAction, due: i128| matches!(a, TriggerAction::BlockOutgoing { duration, .. } if dns(duration) == 0) && due == e.t;
+                let pending_zero = sd.zero_dur
+                    || sd.slot.values().any(|(a, due)| zero_block(a, *due))
+                    || sd.slot_tie.iter().any(|x| zero_block(&x.1, x.2));
+                let mk = |f: String| if pending_zero { Finding { known: Some("F8"), msg: f } } else { viol(f) };
+                if !sd.active {
+                    ch.c16.push(mk(format!("{} BlockingEnd at {} (event #{}) without active blocking", sname, e.t, i)));
+                } else {
+                    if sd.until != e.t {
+                        ch.c16.push(mk(format!("{} BlockingEnd at {} (event #{}) but the blocking expires at {}", sname, e.t, i, sd.until)));
+                    }
+                    sd.active = false;
+                    sd.zero_dur = false;
+                }
+            }
+            K_TUNNEL_SENT => {
+                // a BlockingBegin reported later at this same instant may already be in force
+                let begin_follows = tr[i + 1..].iter().take_while(|x| x.t == e.t).any(|x| x.client == e.client && x.kind == K_BLOCKING_BEGIN)
+                    || sd.slot.values().any(|(a, due)| matches!(a, TriggerAction::BlockOutgoing { .. }) && *due == e.t)
+                    || sd.slot_tie.iter().any(|x| matches!(x.1, TriggerAction::BlockOutgoing { .. }) && x.2 == e.t);
+                if sd.active && !(sd.bypassable && e.bypass) && e.t < sd.until && !begin_follows {
+                    let f = format!(
+                        "{} TunnelSent (padding={} bypass={}) at {} (event #{}) while blocking is active until {} (bypassable={})",
+                        sname, e.pad, e.bypass, e.t, i, sd.until, sd.bypassable
+                    );
+                    ch.c16.push(if sd.zero_dur {
+                        Finding { known: Some("F8"), msg: f }
+                    } else {
+                        viol(f)
+                    });
+                }
+            }
+            K_TIMER_BEGIN => {
+                let m = e.machine as usize;
+                match sd.ut.iter().position(|x| x.0 == m && x.1 == e.t) {
+                    Some(p) => {
+                        // prefer answering a required one
+                        let p = sd.ut.iter().position(|x| x.0 == m && x.1 == e.t && x.2).unwrap_or(p);
+                        sd.ut.remove(p);
+                    }
+                    None => ch.c18.push(viol(format!("{} TimerBegin for machine {} at {} (event #{}) without an UpdateTimer action at that instant", sname, m, e.t, i))),
+                }
+            }
+            K_TIMER_END => {
+                let m = e.machine as usize;
+                if sd.timer.get(&m) == Some(&e.t) {
+                    sd.timer.remove(&m);
+                } else if let Some(p) = sd.timer_tie.iter().position(|x| x.0 == m && x.1 == e.t) {
+                    sd.timer_tie.remove(p);
+                } else {
+                    ch.c18.push(viol(format!("{} TimerEnd for machine {} at {} (event #{}) but its timer is {:?}", sname, m, e.t, i, sd.timer.get(&m))));
+                }
+            }
+            _ => {}
+        }
+        if let Some((s0, c0)) = snapshot {
+            for k in alt {
+                stack.push((i, s0.clone(), c0.clone(), Some(k)));
+            }
+        }
+        let sd = &mut sides[si];
+        // the actions returned for this event
+        for a in &acts[i] {
+            match a {
+                TriggerAction::Cancel { machine, timer } => {
+                    let m = machine.into_raw();
+                    if m >= nm[si] {
+                        continue;
+                    }
+                    if matches!(timer, Timer::Action | Timer::All) {
+                        if let Some((a0, due)) = sd.slot.remove(&m) {
+                            if due == e.t {
+                                sd.slot_tie.push((m, a0, due));
+                            }
+                        }
+                    }
+                    if matches!(timer, Timer::Internal | Timer::All) {
+                        if let Some(exp) = sd.timer.remove(&m) {
+                            if exp == e.t {
+                                sd.timer_tie.push((m, exp));
+                            }
+                        }
+                    }
+                }
+                TriggerAction::SendPadding { timeout, machine, .. } | TriggerAction::BlockOutgoing { timeout, machine, .. } => {
+                    let m = machine.into_raw();
+                    if let Some((a0, due)) = sd.slot.insert(m, (a.clone(), e.t + dns(timeout))) {
+                        if due == e.t {
+                            sd.slot_tie.push((m, a0, due));
+                        }
+                    }
+                }
+                TriggerAction::UpdateTimer { duration, replace, machine } => {
+                    let m = machine.into_raw();
+                    let new = e.t + dns(duration);
+                    let cur = sd.timer.get(&m).cloned();
+                    let sets = *replace || cur.is_none() || new > cur.unwrap();
+                    if sets {
+                        if let Some(exp) = cur {
+                            if exp == e.t {
+                                sd.timer_tie.push((m, exp));
+                            }
+                        }
+                        sd.timer.insert(m, new);
+                    }
+                    sd.ut.push((m, e.t, sets));
+                }
+            }
+        }
+    }
+    (ch, false)
+}
+
+fn proj(tr: &[OutEv], only_client: bool, only_network: bool) -> Vec<OutEv> {
+    tr.iter().filter(|e| (!only_network || is_activity(e)) && (!only_client || e.client)).cloned().collect()
+}
+
+/// the multiset of times of one event kind on one side
+fn times(tr: &[OutEv], client: bool, kind: u64, pad: Option<bool>) -> Vec<i128> {
+    let mut v: Vec<i128> = tr.iter().filter(|e| e.client == client && e.kind == kind && pad.map_or(true, |p| e.pad == p)).map(|e| e.t).collect();
+    v.sort();
+    v
+}
+
+/// the unfiltered trace with the replayed actions, for replay files
+pub fn describe(c: &SimCase) -> Vec<String> {
+    let cu = unfiltered(c);
+    let mut l = vec![];
+    let real = run_sim(&cu);
+    if let Ok(tr) = real.out {
+        maybenot::verif::arm(0);
+        let acts = replay(&cu, &tr).unwrap_or_default();
+        let (tp, lg, _) = maybenot::verif::take();
+        maybenot::verif::disarm();
+        if let Ok(f) = std::env::var("VHARNESS_DUMPLOG") {
+            std::fs::write(f, real.log.iter().map(|x| format!("{} {} {}\n", x.0, x.1, x.2)).collect::<String>()).unwrap();
+        }
+        let kk = lg.iter().zip(real.log.iter()).position(|(a, b)| a != b);
+        l.push(format!("logs: real {} replay {} first difference at {:?}: real {:?} replay {:?}", real.log.len(), lg.len(), kk, kk.map(|k| &real.log[k.saturating_sub(3)..(k + 4).min(real.log.len())]), kk.map(|k| &lg[k.saturating_sub(3)..(k + 4).min(lg.len())])));
+        let rt: Vec<u64> = tp.iter().map(|x| if x.0 == maybenot::verif::TAPE_U { ((f32::from_bits(x.1 as u32) * 8388608.0) as u64).min((1 << 23) - 1) } else { x.1 }).collect();
+        let k = rt.iter().zip(real.tape.iter()).position(|(a, b)| a != b);
+        l.push(format!("tapes: real {} draws, replay {} draws, first difference at {:?}", real.tape.len(), rt.len(), k));
+        for (i, e) in tr.iter().enumerate() {
+            l.push(format!("#{} t={} {} {:?} pad={} bypass={} replace={} -> {:?}", i, e.t, if e.client { "client" } else { "server" }, e.ev, e.pad, e.bypass, e.replace, acts.get(i).cloned().unwrap_or_default()));
+        }
+    }
+    l
+}
+
+pub fn monitor(prop: &str, c: &SimCase) -> Vec<Finding> {
+    let mut out = vec![];
+    let cu = unfiltered(c);
+    let ru = run_sim(&cu);
+    let tr = match &ru.out {
+        Ok(t) => t.clone(),
+        Err(m) => {
+            if prop == "C19" {
+                let known = if m.contains("divide by zero") && c.pps.map_or(false, |p| (p as u64) % (1u64 << 32) == 0 && p != 0) { Some("F9") } else { None };
+                out.push(Finding { known, msg: format!("sim_advanced panicked: {}", m) });
+            }
+            return out;
+        }
+    };
+    let complete = !cu.cont && (cu.max_trace == 0 || tr.len() < cu.max_trace) && (cu.max_iter == 0 || tr.len() < cu.max_iter);
+    let d = c.delay_ns as i128;
+    let sends: Vec<i128> = {
+        let mut v: Vec<i128> = c.trace.iter().filter(|x| x.1).map(|x| x.0 as i128).collect();
+        v.sort();
+        v
+    };
+    let recvs: Vec<i128> = {
+        let mut v: Vec<i128> = c.trace.iter().filter(|x| !x.1).map(|x| x.0 as i128).collect();
+        v.sort();
+        v
+    };
+    match prop {
+        "C14" => {
+            // no machines: the tunnel events are exactly the trace
+            let sub = |a: &Vec<i128>, b: &Vec<i128>| {
+                // a is a sub-multiset of b (both sorted)
+                let mut j = 0;
+                for x in a {
+                    while j < b.len() && b[j] < *x {
+                        j += 1;
+                    }
+                    if j >= b.len() || b[j] != *x {
+                        return false;
+                    }
+                    j += 1;
+                }
+                true
+            };
+            let shift = |v: &Vec<i128>, k: i128| v.iter().map(|x| x + k).collect::<Vec<_>>();
+            let checks: [(&str, Vec<i128>, Vec<i128>); 4] = [
+                ("client TunnelSent", times(&tr, true, K_TUNNEL_SENT, None), sends.clone()),
+                ("client TunnelRecv", times(&tr, true, K_TUNNEL_RECV, None), recvs.clone()),
+                ("server TunnelRecv", times(&tr, false, K_TUNNEL_RECV, None), shift(&sends, d)),
+                ("server TunnelSent", times(&tr, false, K_TUNNEL_SENT, None), shift(&recvs, -d)),
+            ];
+            for (what, got, want) in checks.iter() {
+                let ok = if complete { got == want } else { sub(got, want) };
+                if !ok {
+                    out.push(viol(format!("{} times {:?} differ from the trace's {:?} (run complete: {})", what, &got[..got.len().min(12)], &want[..want.len().min(12)], complete)));
+                }
+            }
+            if let Some(e) = tr.iter().find(|e| e.pad || !matches!(e.kind, K_NORMAL_RECV | K_TUNNEL_RECV | K_NORMAL_SENT | K_TUNNEL_SENT)) {
+                out.push(viol(format!("event of kind {} (padding={}) at {} although no machine runs", e.kind, e.pad, e.t)));
+            }
+            // via sim() as well
+            if c.max_iter == 0 && !c.only_client {
+                let rs = crate::sim::run_sim_plain(c);
+                let c0 = SimCase { max_trace: 0, ..cu.clone() };
+                let mut want = proj(&run_sim(&c0).out.unwrap_or_default(), false, c.only_network);
+                if c.max_trace > 0 {
+                    want.truncate(c.max_trace);
+                }
+                if rs.out.as_ref().ok() != Some(&want) {
+                    out.push(viol("sim() and sim_advanced() disagree".to_string()));
+                }
+            }
+        }
+        "C15" => {
+            if tr.windows(2).any(|w| w[0].t > w[1].t) {
+                out.push(viol("returned trace is not ordered by time".to_string()));
+            }
+            // every TunnelRecv matches one earlier TunnelSent of the other side, same kind, >= delay before
+            for client in [true, false] {
+                for pad in [false, true] {
+                    let mut sent: std::collections::VecDeque<i128> = Default::default();
+                    for e in &tr {
+                        if e.kind == K_TUNNEL_SENT && e.client != client && e.pad == pad {
+                            sent.push_back(e.t);
+                        }
+                        if e.kind == K_TUNNEL_RECV && e.client == client && e.pad == pad {
+                            match sent.front() {
+                                Some(s) if *s + d <= e.t => {
+                                    sent.pop_front();
+                                }
+                                _ => out.push(viol(format!(
+                                    "{} TunnelRecv (padding={}) at {} has no unmatched earlier TunnelSent of the other side at least {} ns before (oldest unmatched: {:?})",
+                                    if client { "client" } else { "server" },
+                                    pad,
+                                    e.t,
+                                    d,
+                                    sent.front()
+                                ))),
+                            }
+                        }
+                    }
+                }
+            }
+            for (client, share) in [(true, sends.len()), (false, recvs.len())] {
+                let ns = times(&tr, client, K_NORMAL_SENT, None).len();
+                let ts = times(&tr, client, K_TUNNEL_SENT, Some(false)).len();
+                let nr = times(&tr, !client, K_NORMAL_RECV, None).len();
+                let trc = times(&tr, !client, K_TUNNEL_RECV, Some(false)).len();
+                let who = if client { "client" } else { "server" };
+                if ns > share || ts > share || trc > ts || nr > trc || ts > ns {
+                    out.push(viol(format!("{} normal packets created or duplicated: share {} NormalSent {} TunnelSent {} peer TunnelRecv {} peer NormalRecv {}", who, share, ns, ts, trc, nr)));
+                }
+                if complete && (ts != share || trc != share) {
+                    out.push(viol(format!("{} sent {} normal packets (peer received {}) of its share {} although the run ended with all normal packets processed", who, ts, trc, share)));
+                }
+            }
+        }
+        "C16" | "C17" | "C18" => match replay(&cu, &tr) {
+            Err(e) => out.push(viol(format!("replay failed: {}", e))),
+            Ok(acts) => {
+                let ch = check_actions(&cu, &tr, &acts, prop);
+                out.extend(match prop {
+                    "C16" => ch.c16,
+                    "C17" => ch.c17,
+                    _ => ch.c18,
+                });
+            }
+        },
+        "C19" => {
+            // reproducible
+            let r2 = run_sim(&cu);
+            if r2.out.as_ref().ok() != Some(&tr) {
+                out.push(viol("two runs with the same seed returned different traces".to_string()));
+            }
+            if tr.windows(2).any(|w| w[0].t > w[1].t) {
+                out.push(viol("simulated time moved backwards in the returned trace".to_string()));
+            }
+            if (cu.max_trace > 0 && tr.len() > cu.max_trace) || (cu.max_iter > 0 && tr.len() > cu.max_iter) {
+                out.push(viol(format!("trace of {} events exceeds the bounds max_trace_length={} max_sim_iterations={}", tr.len(), cu.max_trace, cu.max_iter)));
+            }
+            // filters are projections: against the unfiltered run without a length bound
+            let c0 = SimCase { max_trace: 0, ..cu.clone() };
+            let full = match run_sim(&c0).out {
+                Ok(t) => t,
+                Err(m) => {
+                    out.push(viol(format!("sim_advanced panicked: {}", m)));
+                    return out;
+                }
+            };
+            for (oc, on) in [(true, false), (false, true), (true, true)] {
+                let cf = SimCase { only_client: oc, only_network: on, ..c.clone() };
+                match run_sim(&cf).out {
+                    Err(m) => out.push(viol(format!("filtered run panicked: {}", m))),
+                    Ok(f) => {
+                        let mut want = proj(&full, oc, on);
+                        if cf.max_trace > 0 {
+                            want.truncate(cf.max_trace);
+                        }
+                        if f != want {
+                            out.push(viol(format!("only_client_events={} only_network_activity={}: the filtered trace ({} events) is not the projection of the unfiltered one ({} events)", oc, on, f.len(), want.len())));
+                        }
+                    }
+                }
+            }
+        }
+        _ => {}
+    }
+    out
 }
